@@ -57,5 +57,19 @@ func ZZ_C20_Crash() {
 		ok = rt.Or(ok, zzSame(r, models[p]))
 	}
 	rt.Assert(ok, "recovered-state-is-a-prefix-containing-every-acknowledged-mutation")
+	// recovery must also leave a log that says the same thing: the recovered store is run and stopped cleanly (nothing
+	// is written), and the next open of the same log must show a state that again contains every acknowledged mutation
+	go r.Start()
+	r.Stop()
+	r2, err := New(zzConfig("recovered"))
+	rt.Assert(err == nil, "second-reopen-after-recovery-succeeds")
+	if err != nil || r2 == nil {
+		return
+	}
+	ok2 := false
+	for p := zzAckedAtCr; p <= zzAckedAtCr+1 && p < len(models); p++ {
+		ok2 = rt.Or(ok2, zzSame(r2, models[p]))
+	}
+	rt.Assert(ok2, "state-after-a-second-reopen-still-contains-every-acknowledged-mutation")
 	rt.Reach("end")
 }
